@@ -148,7 +148,7 @@ def _run_shard(ctx, binary, tag, scheds):
 
 def replay(ctx, binary, tag, scheds, shards=None):
     """Replay the schedules (several harness processes side by side), merge the event streams."""
-    shards = shards or (4 if len(scheds) >= 200 else 1)
+    shards = shards or (6 if len(scheds) >= 3000 else 4 if len(scheds) >= 200 else 1)
     parts = [scheds[k::shards] for k in range(shards)]
     from concurrent.futures import ThreadPoolExecutor
     with ThreadPoolExecutor(max_workers=shards) as ex:
@@ -189,7 +189,7 @@ def split_traces(rows):
     return [(s, (starts[k + 1] if k + 1 < len(starts) else len(rows))) for k, s in enumerate(starts)]
 
 
-def validate(ctx, prop, tag, events_path, scheds, results):
+def validate(ctx, prop, tag, events_path, scheds, results, binary=None, depth=0):
     """Soft pass (report every rejected trace), then strict pass on the accepted ones. Returns #traces accepted."""
     rows = lib.read_ndjson(events_path)
     if not rows:
@@ -215,9 +215,23 @@ def validate(ctx, prop, tag, events_path, scheds, results):
         if tr is None or tr in bad:
             continue
         bad[tr] = (kind, what, idx)
+    skipped = 0
     for (s, e), (kind, what, idx) in sorted(bad.items()):
         cid = rows[s]["id"]
         ev = rows[idx]
+        r0 = res_by_id.get(cid) or {}
+        if depth == 0 and (r0.get("free_run") or r0.get("timeouts")):
+            # the machine was too slow for this run (a step did not settle in time, so goroutines may have overlapped and the
+            # order of lock-free reads in the log is not reliable): never a verdict - run the schedule again on its own
+            verdict = None
+            for attempt in range(3):
+                ep2, res2, _ = _run_shard(ctx, binary, "%s-confirm" % tag, [by_id[cid]])
+                if res2 and not (res2[0].get("free_run") or res2[0].get("timeouts")):
+                    verdict = validate(ctx, prop, tag + "-confirm", ep2, [by_id[cid]], res2, binary, depth=1)
+                    break
+            if verdict is None:
+                skipped += 1
+            continue
         if kind == "INV":
             invs = re.findall(r'"(\w+)"', what)
             inv = invs[0] if invs else "?"
@@ -230,6 +244,8 @@ def validate(ctx, prop, tag, events_path, scheds, results):
                    % (idx - s, json.dumps({k: ev.get(k) for k in ("ev", "k", "i", "j", "x", "y", "z", "trig", "subs", "sinc", "sdec", "tinc", "tdec", "uncancelled", "wedged") if k in ev})))
         ctx.violation(key, "%s; schedule %s" % (msg, cid),
                       {"schedule": by_id.get(cid), "events": rows[s:e], "result": res_by_id.get(cid), "failing_event_index": idx - s, "verdict": kind, "detail": what})
+    if skipped:
+        ctx.notes.append("%d schedules could not be run undisturbed (machine too slow) and were not judged" % skipped)
     good_rows = []
     ngood = 0
     for (s, e) in traces:
@@ -264,7 +280,7 @@ def run_batches(ctx, prop, binary, batches):
         if not scheds:
             continue
         ep, results = replay(ctx, binary, tag, scheds)
-        good, bad = validate(ctx, prop, tag, ep, scheds, results)
+        good, bad = validate(ctx, prop, tag, ep, scheds, results, binary)
         tot["replayed"] += len(results)
         tot["accepted"] += good
         tot["rejected"] += bad
